@@ -118,6 +118,7 @@ type fixture struct {
 	handlers [2]http.Handler
 	eps      [2][nEps]epSpec // effective endpoints per router
 	saved    op.Endpoints
+	panicked bool // some request since it was last cleared made the handler panic
 }
 
 var quiet = slog.New(slog.NewTextHandler(io.Discard, nil))
@@ -219,7 +220,11 @@ func (f *fixture) do(r opfix.Router, q request, method, path string, form url.Va
 	if len(basic) == 2 {
 		req.SetBasicAuth(url.QueryEscape(basic[0]), url.QueryEscape(basic[1]))
 	}
-	return opfix.Do(f.handlers[r], req)
+	resp := opfix.Do(f.handlers[r], req)
+	if resp.Panic != "" {
+		f.panicked = true
+	}
+	return resp
 }
 
 // routed: the router has a route for path (anything but the mux's own 404 / 405).
